@@ -625,6 +625,17 @@ func c08Progress(p *ana.Prog, r *ana.Result, ts *ana.TaintState, pset *ana.Prove
 					}
 					lo, ok := minIncrement(f, e, ph, pred, 0)
 					if !ok || lo < 1 {
+						// second opinion: the linear prover (guards on copies, struct values, callee summaries)
+						pr := pset.For(f)
+						el, ok1 := pr.Int(e, 0)
+						pl, ok2 := pr.Int(ph, 0)
+						if ok1 && ok2 {
+							goal := el.Add(pl, -1)
+							goal.C -= 1
+							if pr.ProveAt(goal, pred.Instrs[len(pred.Instrs)-1]) {
+								continue
+							}
+						}
 						okAll = false
 						why = fmt.Sprintf("cursor `%s` changes by %s on the way back to the loop test", ph.Comment, describeStep(e, ph))
 					}
